@@ -28,7 +28,7 @@ LISTED = ("set", "setitem", "setcfg", "itemset")
 
 
 def bounds(tier):
-    return {"shapes": W.SHAPES, "leaves": list(W.catalogue()) if tier == "thorough" else W.quick_leaves(),
+    return {"shapes": W.SHAPES + ["nested-v", "cfglist-v"], "leaves": list(W.catalogue()) if tier == "thorough" else W.quick_leaves(),
             "depth": 3 if tier == "thorough" else 2, "document_formats": ["json", "yaml", "xml", "bson", "pickle"]}
 
 
